@@ -16,91 +16,264 @@ func ay(tag string) {
 
 type Bool struct{ v atomic.Bool }
 
-func (x *Bool) Load() bool                        { ay("atomic.Load"); return x.v.Load() }
-func (x *Bool) Store(val bool)                    { ay("atomic.Store"); x.v.Store(val) }
-func (x *Bool) Swap(new bool) bool                { ay("atomic.Swap"); return x.v.Swap(new) }
-func (x *Bool) CompareAndSwap(old, new bool) bool { ay("atomic.CAS"); return x.v.CompareAndSwap(old, new) }
+//go:norace
+func (x *Bool) Load() bool { ay("atomic.Load"); return x.v.Load() }
+
+//go:norace
+func (x *Bool) Store(val bool) { ay("atomic.Store"); x.v.Store(val) }
+
+//go:norace
+func (x *Bool) Swap(new bool) bool { ay("atomic.Swap"); return x.v.Swap(new) }
+
+//go:norace
+func (x *Bool) CompareAndSwap(old, new bool) bool {
+	ay("atomic.CAS")
+	return x.v.CompareAndSwap(old, new)
+}
 
 type Int32 struct{ v atomic.Int32 }
 
-func (x *Int32) Load() int32                        { ay("atomic.Load"); return x.v.Load() }
-func (x *Int32) Store(val int32)                    { ay("atomic.Store"); x.v.Store(val) }
-func (x *Int32) Swap(new int32) int32               { ay("atomic.Swap"); return x.v.Swap(new) }
-func (x *Int32) Add(d int32) int32                  { ay("atomic.Add"); return x.v.Add(d) }
-func (x *Int32) CompareAndSwap(old, new int32) bool { ay("atomic.CAS"); return x.v.CompareAndSwap(old, new) }
+//go:norace
+func (x *Int32) Load() int32 { ay("atomic.Load"); return x.v.Load() }
+
+//go:norace
+func (x *Int32) Store(val int32) { ay("atomic.Store"); x.v.Store(val) }
+
+//go:norace
+func (x *Int32) Swap(new int32) int32 { ay("atomic.Swap"); return x.v.Swap(new) }
+
+//go:norace
+func (x *Int32) Add(d int32) int32 { ay("atomic.Add"); return x.v.Add(d) }
+
+//go:norace
+func (x *Int32) CompareAndSwap(old, new int32) bool {
+	ay("atomic.CAS")
+	return x.v.CompareAndSwap(old, new)
+}
 
 type Int64 struct{ v atomic.Int64 }
 
-func (x *Int64) Load() int64                        { ay("atomic.Load"); return x.v.Load() }
-func (x *Int64) Store(val int64)                    { ay("atomic.Store"); x.v.Store(val) }
-func (x *Int64) Swap(new int64) int64               { ay("atomic.Swap"); return x.v.Swap(new) }
-func (x *Int64) Add(d int64) int64                  { ay("atomic.Add"); return x.v.Add(d) }
-func (x *Int64) CompareAndSwap(old, new int64) bool { ay("atomic.CAS"); return x.v.CompareAndSwap(old, new) }
+//go:norace
+func (x *Int64) Load() int64 { ay("atomic.Load"); return x.v.Load() }
+
+//go:norace
+func (x *Int64) Store(val int64) { ay("atomic.Store"); x.v.Store(val) }
+
+//go:norace
+func (x *Int64) Swap(new int64) int64 { ay("atomic.Swap"); return x.v.Swap(new) }
+
+//go:norace
+func (x *Int64) Add(d int64) int64 { ay("atomic.Add"); return x.v.Add(d) }
+
+//go:norace
+func (x *Int64) CompareAndSwap(old, new int64) bool {
+	ay("atomic.CAS")
+	return x.v.CompareAndSwap(old, new)
+}
 
 type Uint32 struct{ v atomic.Uint32 }
 
-func (x *Uint32) Load() uint32                        { ay("atomic.Load"); return x.v.Load() }
-func (x *Uint32) Store(val uint32)                    { ay("atomic.Store"); x.v.Store(val) }
-func (x *Uint32) Swap(new uint32) uint32              { ay("atomic.Swap"); return x.v.Swap(new) }
-func (x *Uint32) Add(d uint32) uint32                 { ay("atomic.Add"); return x.v.Add(d) }
-func (x *Uint32) CompareAndSwap(old, new uint32) bool { ay("atomic.CAS"); return x.v.CompareAndSwap(old, new) }
+//go:norace
+func (x *Uint32) Load() uint32 { ay("atomic.Load"); return x.v.Load() }
+
+//go:norace
+func (x *Uint32) Store(val uint32) { ay("atomic.Store"); x.v.Store(val) }
+
+//go:norace
+func (x *Uint32) Swap(new uint32) uint32 { ay("atomic.Swap"); return x.v.Swap(new) }
+
+//go:norace
+func (x *Uint32) Add(d uint32) uint32 { ay("atomic.Add"); return x.v.Add(d) }
+
+//go:norace
+func (x *Uint32) CompareAndSwap(old, new uint32) bool {
+	ay("atomic.CAS")
+	return x.v.CompareAndSwap(old, new)
+}
 
 type Uint64 struct{ v atomic.Uint64 }
 
-func (x *Uint64) Load() uint64                        { ay("atomic.Load"); return x.v.Load() }
-func (x *Uint64) Store(val uint64)                    { ay("atomic.Store"); x.v.Store(val) }
-func (x *Uint64) Swap(new uint64) uint64              { ay("atomic.Swap"); return x.v.Swap(new) }
-func (x *Uint64) Add(d uint64) uint64                 { ay("atomic.Add"); return x.v.Add(d) }
-func (x *Uint64) CompareAndSwap(old, new uint64) bool { ay("atomic.CAS"); return x.v.CompareAndSwap(old, new) }
+//go:norace
+func (x *Uint64) Load() uint64 { ay("atomic.Load"); return x.v.Load() }
+
+//go:norace
+func (x *Uint64) Store(val uint64) { ay("atomic.Store"); x.v.Store(val) }
+
+//go:norace
+func (x *Uint64) Swap(new uint64) uint64 { ay("atomic.Swap"); return x.v.Swap(new) }
+
+//go:norace
+func (x *Uint64) Add(d uint64) uint64 { ay("atomic.Add"); return x.v.Add(d) }
+
+//go:norace
+func (x *Uint64) CompareAndSwap(old, new uint64) bool {
+	ay("atomic.CAS")
+	return x.v.CompareAndSwap(old, new)
+}
 
 type Uintptr struct{ v atomic.Uintptr }
 
-func (x *Uintptr) Load() uintptr                        { ay("atomic.Load"); return x.v.Load() }
-func (x *Uintptr) Store(val uintptr)                    { ay("atomic.Store"); x.v.Store(val) }
-func (x *Uintptr) Swap(new uintptr) uintptr             { ay("atomic.Swap"); return x.v.Swap(new) }
-func (x *Uintptr) Add(d uintptr) uintptr                { ay("atomic.Add"); return x.v.Add(d) }
-func (x *Uintptr) CompareAndSwap(old, new uintptr) bool { ay("atomic.CAS"); return x.v.CompareAndSwap(old, new) }
+//go:norace
+func (x *Uintptr) Load() uintptr { ay("atomic.Load"); return x.v.Load() }
+
+//go:norace
+func (x *Uintptr) Store(val uintptr) { ay("atomic.Store"); x.v.Store(val) }
+
+//go:norace
+func (x *Uintptr) Swap(new uintptr) uintptr { ay("atomic.Swap"); return x.v.Swap(new) }
+
+//go:norace
+func (x *Uintptr) Add(d uintptr) uintptr { ay("atomic.Add"); return x.v.Add(d) }
+
+//go:norace
+func (x *Uintptr) CompareAndSwap(old, new uintptr) bool {
+	ay("atomic.CAS")
+	return x.v.CompareAndSwap(old, new)
+}
 
 type Pointer[T any] struct{ v atomic.Pointer[T] }
 
-func (x *Pointer[T]) Load() *T                        { ay("atomic.Load"); return x.v.Load() }
-func (x *Pointer[T]) Store(val *T)                    { ay("atomic.Store"); x.v.Store(val) }
-func (x *Pointer[T]) Swap(new *T) *T                  { ay("atomic.Swap"); return x.v.Swap(new) }
-func (x *Pointer[T]) CompareAndSwap(old, new *T) bool { ay("atomic.CAS"); return x.v.CompareAndSwap(old, new) }
+//go:norace
+func (x *Pointer[T]) Load() *T { ay("atomic.Load"); return x.v.Load() }
+
+//go:norace
+func (x *Pointer[T]) Store(val *T) { ay("atomic.Store"); x.v.Store(val) }
+
+//go:norace
+func (x *Pointer[T]) Swap(new *T) *T { ay("atomic.Swap"); return x.v.Swap(new) }
+
+//go:norace
+func (x *Pointer[T]) CompareAndSwap(old, new *T) bool {
+	ay("atomic.CAS")
+	return x.v.CompareAndSwap(old, new)
+}
 
 type Value struct{ v atomic.Value }
 
-func (x *Value) Load() any                        { ay("atomic.Load"); return x.v.Load() }
-func (x *Value) Store(val any)                    { ay("atomic.Store"); x.v.Store(val) }
-func (x *Value) Swap(new any) any                 { ay("atomic.Swap"); return x.v.Swap(new) }
-func (x *Value) CompareAndSwap(old, new any) bool { ay("atomic.CAS"); return x.v.CompareAndSwap(old, new) }
+//go:norace
+func (x *Value) Load() any { ay("atomic.Load"); return x.v.Load() }
 
-func AddInt32(addr *int32, delta int32) int32       { ay("atomic.Add"); return atomic.AddInt32(addr, delta) }
-func AddInt64(addr *int64, delta int64) int64       { ay("atomic.Add"); return atomic.AddInt64(addr, delta) }
-func AddUint32(addr *uint32, delta uint32) uint32   { ay("atomic.Add"); return atomic.AddUint32(addr, delta) }
-func AddUint64(addr *uint64, delta uint64) uint64   { ay("atomic.Add"); return atomic.AddUint64(addr, delta) }
-func AddUintptr(addr *uintptr, d uintptr) uintptr   { ay("atomic.Add"); return atomic.AddUintptr(addr, d) }
-func LoadInt32(addr *int32) int32                   { ay("atomic.Load"); return atomic.LoadInt32(addr) }
-func LoadInt64(addr *int64) int64                   { ay("atomic.Load"); return atomic.LoadInt64(addr) }
-func LoadUint32(addr *uint32) uint32                { ay("atomic.Load"); return atomic.LoadUint32(addr) }
-func LoadUint64(addr *uint64) uint64                { ay("atomic.Load"); return atomic.LoadUint64(addr) }
-func LoadUintptr(addr *uintptr) uintptr             { ay("atomic.Load"); return atomic.LoadUintptr(addr) }
-func LoadPointer(addr *unsafe.Pointer) unsafe.Pointer { ay("atomic.Load"); return atomic.LoadPointer(addr) }
-func StoreInt32(addr *int32, v int32)               { ay("atomic.Store"); atomic.StoreInt32(addr, v) }
-func StoreInt64(addr *int64, v int64)               { ay("atomic.Store"); atomic.StoreInt64(addr, v) }
-func StoreUint32(addr *uint32, v uint32)            { ay("atomic.Store"); atomic.StoreUint32(addr, v) }
-func StoreUint64(addr *uint64, v uint64)            { ay("atomic.Store"); atomic.StoreUint64(addr, v) }
-func StoreUintptr(addr *uintptr, v uintptr)         { ay("atomic.Store"); atomic.StoreUintptr(addr, v) }
-func StorePointer(addr *unsafe.Pointer, v unsafe.Pointer) { ay("atomic.Store"); atomic.StorePointer(addr, v) }
-func SwapInt32(addr *int32, v int32) int32          { ay("atomic.Swap"); return atomic.SwapInt32(addr, v) }
-func SwapInt64(addr *int64, v int64) int64          { ay("atomic.Swap"); return atomic.SwapInt64(addr, v) }
-func SwapUint32(addr *uint32, v uint32) uint32      { ay("atomic.Swap"); return atomic.SwapUint32(addr, v) }
-func SwapUint64(addr *uint64, v uint64) uint64      { ay("atomic.Swap"); return atomic.SwapUint64(addr, v) }
-func CompareAndSwapInt32(addr *int32, o, n int32) bool    { ay("atomic.CAS"); return atomic.CompareAndSwapInt32(addr, o, n) }
-func CompareAndSwapInt64(addr *int64, o, n int64) bool    { ay("atomic.CAS"); return atomic.CompareAndSwapInt64(addr, o, n) }
-func CompareAndSwapUint32(addr *uint32, o, n uint32) bool { ay("atomic.CAS"); return atomic.CompareAndSwapUint32(addr, o, n) }
-func CompareAndSwapUint64(addr *uint64, o, n uint64) bool { ay("atomic.CAS"); return atomic.CompareAndSwapUint64(addr, o, n) }
-func CompareAndSwapUintptr(addr *uintptr, o, n uintptr) bool { ay("atomic.CAS"); return atomic.CompareAndSwapUintptr(addr, o, n) }
+//go:norace
+func (x *Value) Store(val any) { ay("atomic.Store"); x.v.Store(val) }
+
+//go:norace
+func (x *Value) Swap(new any) any { ay("atomic.Swap"); return x.v.Swap(new) }
+
+//go:norace
+func (x *Value) CompareAndSwap(old, new any) bool {
+	ay("atomic.CAS")
+	return x.v.CompareAndSwap(old, new)
+}
+
+//go:norace
+func AddInt32(addr *int32, delta int32) int32 { ay("atomic.Add"); return atomic.AddInt32(addr, delta) }
+
+//go:norace
+func AddInt64(addr *int64, delta int64) int64 { ay("atomic.Add"); return atomic.AddInt64(addr, delta) }
+
+//go:norace
+func AddUint32(addr *uint32, delta uint32) uint32 {
+	ay("atomic.Add")
+	return atomic.AddUint32(addr, delta)
+}
+
+//go:norace
+func AddUint64(addr *uint64, delta uint64) uint64 {
+	ay("atomic.Add")
+	return atomic.AddUint64(addr, delta)
+}
+
+//go:norace
+func AddUintptr(addr *uintptr, d uintptr) uintptr {
+	ay("atomic.Add")
+	return atomic.AddUintptr(addr, d)
+}
+
+//go:norace
+func LoadInt32(addr *int32) int32 { ay("atomic.Load"); return atomic.LoadInt32(addr) }
+
+//go:norace
+func LoadInt64(addr *int64) int64 { ay("atomic.Load"); return atomic.LoadInt64(addr) }
+
+//go:norace
+func LoadUint32(addr *uint32) uint32 { ay("atomic.Load"); return atomic.LoadUint32(addr) }
+
+//go:norace
+func LoadUint64(addr *uint64) uint64 { ay("atomic.Load"); return atomic.LoadUint64(addr) }
+
+//go:norace
+func LoadUintptr(addr *uintptr) uintptr { ay("atomic.Load"); return atomic.LoadUintptr(addr) }
+
+//go:norace
+func LoadPointer(addr *unsafe.Pointer) unsafe.Pointer {
+	ay("atomic.Load")
+	return atomic.LoadPointer(addr)
+}
+
+//go:norace
+func StoreInt32(addr *int32, v int32) { ay("atomic.Store"); atomic.StoreInt32(addr, v) }
+
+//go:norace
+func StoreInt64(addr *int64, v int64) { ay("atomic.Store"); atomic.StoreInt64(addr, v) }
+
+//go:norace
+func StoreUint32(addr *uint32, v uint32) { ay("atomic.Store"); atomic.StoreUint32(addr, v) }
+
+//go:norace
+func StoreUint64(addr *uint64, v uint64) { ay("atomic.Store"); atomic.StoreUint64(addr, v) }
+
+//go:norace
+func StoreUintptr(addr *uintptr, v uintptr) { ay("atomic.Store"); atomic.StoreUintptr(addr, v) }
+
+//go:norace
+func StorePointer(addr *unsafe.Pointer, v unsafe.Pointer) {
+	ay("atomic.Store")
+	atomic.StorePointer(addr, v)
+}
+
+//go:norace
+func SwapInt32(addr *int32, v int32) int32 { ay("atomic.Swap"); return atomic.SwapInt32(addr, v) }
+
+//go:norace
+func SwapInt64(addr *int64, v int64) int64 { ay("atomic.Swap"); return atomic.SwapInt64(addr, v) }
+
+//go:norace
+func SwapUint32(addr *uint32, v uint32) uint32 { ay("atomic.Swap"); return atomic.SwapUint32(addr, v) }
+
+//go:norace
+func SwapUint64(addr *uint64, v uint64) uint64 { ay("atomic.Swap"); return atomic.SwapUint64(addr, v) }
+
+//go:norace
+func CompareAndSwapInt32(addr *int32, o, n int32) bool {
+	ay("atomic.CAS")
+	return atomic.CompareAndSwapInt32(addr, o, n)
+}
+
+//go:norace
+func CompareAndSwapInt64(addr *int64, o, n int64) bool {
+	ay("atomic.CAS")
+	return atomic.CompareAndSwapInt64(addr, o, n)
+}
+
+//go:norace
+func CompareAndSwapUint32(addr *uint32, o, n uint32) bool {
+	ay("atomic.CAS")
+	return atomic.CompareAndSwapUint32(addr, o, n)
+}
+
+//go:norace
+func CompareAndSwapUint64(addr *uint64, o, n uint64) bool {
+	ay("atomic.CAS")
+	return atomic.CompareAndSwapUint64(addr, o, n)
+}
+
+//go:norace
+func CompareAndSwapUintptr(addr *uintptr, o, n uintptr) bool {
+	ay("atomic.CAS")
+	return atomic.CompareAndSwapUintptr(addr, o, n)
+}
+
+//go:norace
 func CompareAndSwapPointer(addr *unsafe.Pointer, o, n unsafe.Pointer) bool {
 	ay("atomic.CAS")
 	return atomic.CompareAndSwapPointer(addr, o, n)
